@@ -260,7 +260,7 @@ def is_tz_aware_with_millisecond_precision(dt: datetime.datetime) -> bool:
     return (
         dt.tzinfo is not None
         and dt.tzinfo.utcoffset(dt) is not None
-        and dt.microsecond == 0
+        and dt.microsecond % 1000 == 0
         and dt.timestamp() >= 0
     )
 
@@ -277,7 +277,8 @@ class TZAware(
     representation.
 
     - Timezone awareness means any object lacking timezone data is excluded.
-    - Millisecond precision means any object with microsecond != 0 is excluded.
+    - Millisecond precision means any object with a sub-millisecond part, i.e.
+      microsecond % 1000 != 0, is excluded.
     - Kafka uses -1 to represent NULL, so negative unix timestamps are not
       supported.
     """
@@ -326,4 +327,6 @@ class TZAware(
 
     @classmethod
     def truncate(cls, value: datetime.datetime) -> Self:
-        return cls.parse(value.replace(microsecond=0))
+        return cls.parse(
+            value.replace(microsecond=value.microsecond - value.microsecond % 1000)
+        )
